@@ -168,3 +168,97 @@ def aligned_zips(ctx, fi, rule):
                % '; '.join('`%s` keeps only the elements with %s' % (U(a)[:30], ' and '.join(s[1])) if s[1] else '`%s` keeps all' % U(a)[:30]
                            for a, s in zip(z.args, ss))), construct='alignment of ' + U(z)[:50])
     return n
+
+
+def mutable_default_state(ctx, fi, rule):
+    """A parameter with a mutable default (`options={}`) is ONE object shared by all calls that omit the argument.  Writing a key into it
+    is harmless only if that key is written on EVERY path before the container is handed on (`**options`, passed as an argument, returned):
+    a key written on some paths only survives from an earlier call on the others (e.g. the callback of the previous estimation).
+    Other in-place changes (append / update / setdefault / pop / del / op=) of such a parameter are reported as they are.  A parameter that is
+    re-bound to a copy first is not shared.  One obligation per parameter that is written at all."""
+    raw = getattr(fi, 'original', fi)
+    n = 0
+    for p, d in raw.defaults().items():
+        mutable = isinstance(d, (ast.Dict, ast.List, ast.Set)) or (isinstance(d, ast.Call) and U(d.func) in ('dict', 'list', 'set', 'defaultdict'))
+        if not mutable:
+            continue
+        body = raw.node.body
+        # re-bound before any write?
+        first_write = None
+        rebound_first = False
+        all_keys, other = set(), []
+        for x in ast.walk(raw.node):
+            if isinstance(x, ast.Subscript) and isinstance(x.ctx, (ast.Store, ast.Del)) and U(x.value) == p:
+                if isinstance(x.slice, ast.Constant):
+                    all_keys.add(repr(x.slice.value))
+                else:
+                    other.append(getattr(x, '_parent', x))
+            if isinstance(x, ast.Call) and isinstance(x.func, ast.Attribute) and U(x.func.value) == p and \
+                    x.func.attr in ('append', 'extend', 'update', 'setdefault', 'pop', 'popitem', 'clear', 'insert', 'remove', 'add', 'discard'):
+                other.append(x)
+            if isinstance(x, ast.AugAssign) and U(x.target) == p:
+                other.append(x)
+        if not all_keys and not other:
+            continue
+        for st in body:
+            if isinstance(st, ast.Assign) and any(U(t) == p for t in st.targets):
+                rebound_first = True
+                break
+            if any((isinstance(x, ast.Subscript) and isinstance(x.ctx, (ast.Store, ast.Del)) and U(x.value) == p) or
+                   (isinstance(x, ast.Call) and isinstance(x.func, ast.Attribute) and U(x.func.value) == p) or
+                   (isinstance(x, ast.AugAssign) and U(x.target) == p) for x in ast.walk(st)):
+                break
+        if rebound_first:
+            continue
+        n += 1
+        problems = []
+        for x in other:
+            problems.append('`%s` changes the shared default in place' % U(x)[:50])
+
+        def reads(node):
+            """uses of p that hand it on / read it (not the stores themselves)"""
+            out = []
+            for x in ast.walk(node):
+                if isinstance(x, ast.Name) and x.id == p and isinstance(x.ctx, ast.Load):
+                    par = getattr(x, '_parent', None)
+                    if isinstance(par, ast.Subscript) and par.value is x and isinstance(par.ctx, (ast.Store, ast.Del)):
+                        continue
+                    out.append(x)
+            return out
+
+        def run(stmts, must):
+            for st in stmts:
+                if isinstance(st, ast.If):
+                    for x in reads(st.test):
+                        check(x, must)
+                    a = run(st.body, set(must))
+                    b = run(st.orelse, set(must))
+                    must = a & b
+                elif isinstance(st, (ast.For, ast.While)):
+                    for x in reads(st.iter if isinstance(st, ast.For) else st.test):
+                        check(x, must)
+                    run(st.body, set(must))
+                elif isinstance(st, (ast.With, ast.Try)):
+                    must = run(st.body, must)
+                else:
+                    for x in reads(st):
+                        check(x, must)
+                    for x in ast.walk(st):
+                        if isinstance(x, ast.Subscript) and isinstance(x.ctx, ast.Store) and U(x.value) == p and isinstance(x.slice, ast.Constant):
+                            must = must | {repr(x.slice.value)}
+            return must
+
+        def check(x, must):
+            missing = sorted(all_keys - must)
+            if missing:
+                st_ = x
+                while getattr(st_, '_parent', None) is not None and not isinstance(st_, ast.stmt):
+                    st_ = st_._parent
+                problems.append('`%s` uses `%s` on a path where the key(s) %s have not been written by this call: they keep the value an '
+                                'earlier call left in the shared default' % (U(st_).split('\n')[0][:60], p, ', '.join(missing)))
+        run(body, set())
+        ctx.ob(rule, fi, raw.node, not problems,
+               'parameter `%s` of %s defaults to a mutable object shared between calls; %s' % (p, raw.qualname, '; '.join(problems[:3]) if problems else
+               'every key this method writes into it is written on every path before it is handed on'),
+               construct='shared default `%s` of %s' % (p, raw.qualname))
+    return n
